@@ -206,4 +206,31 @@ MUTANTS += [
     dict(prop='C09', name='red-qlimit-gt', edits=[(REDP, "        if self.average_queue_size >= self.qlimit:", "        if self.average_queue_size > self.qlimit + 1:")]),
     dict(prop='C09', name='monitor-excluded-forgets-busy', edits=[(PMON, "self.port.byte_size - self.port.busy_packet_size", "self.port.byte_size - self.port.busy_packet_size * self.port.busy * (len(self.port.store.items) > 0)")]),
 ]
+
+WIRE = 'onl/netdev/wire.py'
+TB = 'onl/netdev/token_bucket.py'
+TRTB = 'onl/netdev/two_level_token_bucket.py'
+MUTANTS += [
+    # ---- C10
+    dict(prop='C10', name='queued-gt-delay-inverted', edits=[(WIRE, "                if queued_time < delay:", "                if queued_time > delay:")]),
+    dict(prop='C10', name='delay-drawn-before-loss-test', edits=[(WIRE,
+         "            if not self.loss_rate or random.uniform(0, 1) >= self.loss_rate:\n                # The amount of time for this packet to stay in my store\n                queued_time = self.env.now - packet.current_time\n                delay = self.delay_dist()",
+         "            delay = self.delay_dist()\n            if not self.loss_rate or random.uniform(0, 1) >= self.loss_rate:\n                # The amount of time for this packet to stay in my store\n                queued_time = self.env.now - packet.current_time")]),
+    dict(prop='C10', name='loss-draw-gt', edits=[(WIRE, "random.uniform(0, 1) >= self.loss_rate", "random.uniform(0, 1) > self.loss_rate * 1.2")]),
+    dict(prop='C10', name='cable-wiring-crossed', edits=[(WIRE, "        self.wire1.out = dev2\n        dev2.out = self.wire2\n        self.wire2.out = dev1",
+         "        self.wire1.out = dev1\n        dev2.out = self.wire2\n        self.wire2.out = dev2")]),
+    dict(prop='C10', name='full-delay-after-queueing', edits=[(WIRE, "                    yield env.timeout(delay - queued_time)", "                    yield env.timeout(delay if queued_time > 0 else delay - queued_time)")]),
+    dict(prop='C10', name='lost-packet-still-waits', edits=[(WIRE, "            else:\n                if self.debug:\n                    print(\n                        f\"Dropped on wire",
+         "            else:\n                yield env.timeout(self.delay_dist())\n                if self.debug:\n                    print(\n                        f\"Dropped on wire")]),
+    # ---- C11
+    dict(prop='C11', name='tb-forgot-div-8', edits=[(TB, "self.current_bucket + self.rate * (now - self.update_time) / 8.0,", "self.current_bucket + self.rate * (now - self.update_time),")]),
+    dict(prop='C11', name='tb-cap-omitted', edits=[(TB, "            self.current_bucket = min(\n                self.bucket_size,\n                self.current_bucket + self.rate * (now - self.update_time) / 8.0,\n            )",
+         "            self.current_bucket = self.current_bucket + self.rate * (now - self.update_time) / 8.0")]),
+    dict(prop='C11', name='tb-update-time-not-refreshed-after-wait', edits=[(TB, "                self.current_bucket = 0.0\n                self.update_time = env.now", "                self.current_bucket = 0.0")]),
+    dict(prop='C11', name='tb-peak-spacing-skipped-for-small', edits=[(TB, "            if self.peak:", "            if self.peak and packet.size > 100:")]),
+    dict(prop='C11', name='trtb-colours-swapped', edits=[(TRTB, "                    self.current_bucket_peak -= packet.size\n                    self.current_bucket_commit = 0.0\n                    packet.color = \"yellow\"", "                    self.current_bucket_peak -= packet.size\n                    self.current_bucket_commit = 0.0\n                    packet.color = \"green\"")]),
+    dict(prop='C11', name='trtb-commit-not-debited-for-green', edits=[(TRTB, "                    self.current_bucket_commit -= packet.size\n                    self.current_bucket_peak -= packet.size", "                    self.current_bucket_peak -= packet.size")]),
+    dict(prop='C11', name='trtb-red-not-marked', edits=[(TRTB, "                    self.current_bucket_peak = 0.0\n                    packet.color = \"red\"", "                    self.current_bucket_peak = 0.0\n                    packet.color = \"yellow\"")]),
+    dict(prop='C11', name='trtb-shapes-against-cir-when-pir-set', edits=[(TRTB, "                        (packet.size - self.current_bucket_peak) * 8.0 / self.pir", "                        (packet.size - self.current_bucket_peak) * 8.0 / self.cir")]),
+]
 MUTANTS.sort(key=lambda m: (m['prop'], m['name']))
